@@ -170,7 +170,7 @@ func (k *K) Add(set string, format string, a ...any) {
 // Sample keeps the case as one of the written-out samples (a few per shard).
 func (k *K) Sample() {
 	if len(k.c.rep.Samples) < 2 && k.Case != nil {
-		k.c.rep.Samples = append(k.c.rep.Samples, map[string]any{"index": k.Index, "case": k.Case})
+		k.c.rep.Samples = append(k.c.rep.Samples, map[string]any{"index": k.Index, "case": jsonSafe(k.Case)})
 	}
 }
 
@@ -180,7 +180,7 @@ func (k *K) Failed() bool { return k.failed }
 func (k *K) Failf(format string, a ...any) {
 	k.failed = true
 	if len(k.c.rep.Violations) < 50 {
-		k.c.rep.Violations = append(k.c.rep.Violations, Finding{Index: k.Index, Msg: fmt.Sprintf(format, a...), Case: k.Case})
+		k.c.rep.Violations = append(k.c.rep.Violations, Finding{Index: k.Index, Msg: fmt.Sprintf(format, a...), Case: jsonSafe(k.Case)})
 	} else {
 		k.c.rep.Counters["violations_not_listed"]++
 	}
@@ -202,7 +202,7 @@ func (k *K) Knownf(key string, format string, a ...any) {
 		}
 	}
 	if have < 2 {
-		k.c.rep.Known = append(k.c.rep.Known, Finding{Index: k.Index, Key: key, Msg: fmt.Sprintf(format, a...), Case: k.Case})
+		k.c.rep.Known = append(k.c.rep.Known, Finding{Index: k.Index, Key: key, Msg: fmt.Sprintf(format, a...), Case: jsonSafe(k.Case)})
 	}
 }
 
